@@ -625,6 +625,19 @@ DIRECTED = {
 		'@is_aligned\nstruct Alpha\n\tvalue = uint32\n\n@is_aligned\nabstract struct BarBase\n\ttag = uint8\n\nstruct Bar\n\tinline BarBase\n\talpha = Alpha\n\n'
 		'@is_aligned\nabstract struct FooBase\n\tkind = uint8\n\nstruct Foo\n\tinline FooBase\n\tbar = BarBase\n\n'
 		'struct FooContainer\n\tfoos = array(FooBase, 5)\n',
+	# an UNALIGNED abstract struct reached as a member of a descendant of a marked aligned factory: it is marked by the member rule, so its
+	# own descendants (and their struct-typed members) carry the mark too - whatever the alignment of the factory they derive from (C18-M)
+	'unaligned-factory-inside-aligned-one':
+		'@is_aligned\nstruct Alpha\n\tvalue = uint32\n\nabstract struct BarBase\n\ttag = uint8\n\nstruct Bar\n\tinline BarBase\n\talpha = Alpha\n\n'
+		'struct OtherBar\n\tinline BarBase\n\tother = uint16\n\n'
+		'@is_aligned\nabstract struct FooBase\n\tkind = uint8\n\nstruct Foo\n\tinline FooBase\n\tbar = BarBase\n\n'
+		'struct FooContainer\n\tfoos = array(FooBase, 5)\n',
+	'unaligned-factory-three-levels-deep':
+		'@is_aligned\nstruct Footer\n\tvalue = uint32\n\nabstract struct Inner\n\ttag = uint8\n\nstruct InnerOne\n\tinline Inner\n\tfooter = Footer\n\n'
+		'abstract struct Payload\n\tcode = uint8\n\nstruct TransferPayload\n\tinline Payload\n\tinner = Inner\n\n'
+		'struct OtherPayload\n\tinline Payload\n\tamount = uint64\n\n'
+		'@is_aligned\nabstract struct Entry\n\tkind = uint8\n\nstruct EntryOne\n\tinline Entry\n\tpayload = Payload\n\n'
+		'struct Block\n\tentries_count = uint8\n\tentries = array(Entry, entries_count)\n',
 	'array-in-marked-descendant':
 		'@is_aligned\nstruct Gamma\n\tvalue = uint32\n\n@is_aligned\nabstract struct FooBase\n\tkind = uint8\n\nstruct Foo\n\tinline FooBase\n\tgammas = array(Gamma, 5)\n\n'
 		'struct FooContainer\n\tfoos = array(FooBase, 5)\n',
